@@ -75,8 +75,35 @@ def fam_lock(E, k, fault_kinds, nest=True, rerequest=False, real=False, pmax=2, 
         await (time + 200)
         n0 = STATE.loop.turn
         log('P', 'request', lock.available)
-        async with lock:
-            log('P', 'enter', STATE.loop.turn == n0)
+        wanting.append('P')
+        try:
+            async with lock:
+                inside.append(('P', STATE.loop.activity))
+                try:
+                    log('P', 'enter', STATE.loop.turn == n0)
+                    # second phase: the lock is used again, re-entrantly and contended, after
+                    # whatever happened before (a fault may have left stale bookkeeping behind)
+                    async with lock:
+                        await (time + 5)
+                    log('P', 'p-left2', lock.available)
+                    await (time + 5)
+                    log('P', 'p-leaving', lock.available)
+                finally:
+                    inside[:] = [x for x in inside if x[0] != 'P']
+        finally:
+            wanting.remove('P')
+
+    async def prober2():
+        await (time + 202)
+        log('P2', 'request', lock.available)
+        wanting.append('P2')
+        try:
+            async with lock:
+                inside.append(('P2', STATE.loop.activity))
+                log('P2', 'enter', lock.available, len(inside))
+                inside[:] = [x for x in inside if x[0] != 'P2']
+        finally:
+            wanting.remove('P2')
 
     async def root():
         async with Scope() as top:
@@ -86,6 +113,7 @@ def fam_lock(E, k, fault_kinds, nest=True, rerequest=False, real=False, pmax=2, 
                 else:
                     top.do(contender(i)())
             top.do(prober())
+            top.do(prober2())
 
     samples = []
 
@@ -103,7 +131,7 @@ def fam_lock(E, k, fault_kinds, nest=True, rerequest=False, real=False, pmax=2, 
     E.reach(Fault.NAMES[fault.kind])
     # mutual exclusion + holder sees available
     for ev in log.events:
-        if ev[1] == 'enter' and ev[0] != 'P':
+        if ev[1] == 'enter' and ev[0] not in ('P', 'P2'):
             E.prove(ev[5] == 1, 'mutual-exclusion', ('%r entered while %d inside', ev[0], ev[5] - 1))
             E.prove(ev[4] is True, 'available-for-holder')
         if ev[1] == 'enter2':
@@ -121,8 +149,8 @@ def fam_lock(E, k, fault_kinds, nest=True, rerequest=False, real=False, pmax=2, 
         if not want:
             E.prove(avail is True, 'free-when-nobody-holds-or-waits')
     # FIFO among contenders that obtained the lock
-    req = [(e[0], e[3]) for e in log.events if e[1] == 'request' and e[0] != 'P']
-    ent = [(e[0], e[3]) for e in log.events if e[1] == 'enter' and e[0] != 'P']
+    req = [(e[0], e[3]) for e in log.events if e[1] == 'request' and e[0] not in ('P', 'P2')]
+    ent = [(e[0], e[3]) for e in log.events if e[1] == 'enter' and e[0] not in ('P', 'P2')]
     served = [r for r in req if r in ent]
     E.prove(served == ent, 'granted-in-request-order', ('requests %r, grants %r', req, ent))
     # everybody who was not hit by the fault obtains the lock and leaves
@@ -160,6 +188,19 @@ def fam_lock(E, k, fault_kinds, nest=True, rerequest=False, real=False, pmax=2, 
     if E.prove(pr is not None and pe is not None, 'prober-acquires'):
         E.prove(pr[3] is True and EQ(pe[2], 200) and pe[3] is True, 'lock-free-after-everybody-left',
                 ('available %r, entered at %r, same turn %r', pr[3], pe[2], pe[3]))
+    # second phase: re-entrant holder P (inner block 200..205, outer until 210), contender P2
+    # asks at 202 and must get the lock exactly when P's outermost block ends
+    l2, lv = log.first('P', 'p-left2'), log.first('P', 'p-leaving')
+    q2, e2 = log.first('P2', 'request'), log.first('P2', 'enter')
+    if E.prove(None not in (l2, lv, q2, e2), 'second-phase-completes'):
+        E.prove(l2[3] is True and lv[3] is True, 'second-phase-still-held-after-inner-block',
+                ('available for the owner after its inner block: %r, before leaving: %r',
+                 l2[3], lv[3]))
+        E.prove(q2[3] is False, 'second-phase-not-available-for-contender')
+        E.prove(e2[4] == 1, 'mutual-exclusion', ('second phase: %d inside', e2[4]))
+        E.prove(EQ(e2[2], 210) and log.pos(lv) < log.pos(e2) and e2[3] is True,
+                'second-phase-handed-over-at-outermost-exit',
+                ('contender entered at %r (owner leaves its outer block at 210)', e2[2]))
 
 
 NOF = [Fault.NONE]
